@@ -290,7 +290,7 @@ class SecDict:
                 if getattr(v, "id", None) != sm.id:
                     run.violation("sec_dict_mismatch", "sec_getitem", "subsection", "sec[%r] -> %r" % (key, v))
             else:
-                run.expect_refused(r, "sec_getitem", "absent", allowed=(KeyError,))
+                run.expect_refused(r, "sec_getitem", "absent")
             return res(OK)
         if how == "del":
             r = run.call(lambda: h.__delitem__(key))
@@ -303,7 +303,7 @@ class SecDict:
                 if r[0] == "ok":
                     M.delete_objects(run.fs_of(s).model, M.ownership_closure(sm))
                 return res(OK if r[0] == "ok" else REFUSED)
-            run.expect_refused(r, "sec_delitem", "absent", allowed=(KeyError,))
+            run.expect_refused(r, "sec_delitem", "absent")
             return res(REFUSED)
         if how == "contains":
             v = run.expect_ok(run.call(lambda: key in h), "sec_contains")
